@@ -39,6 +39,9 @@ LIMITS = {
 def shards(tier, seed):
     lim = LIMITS[tier]
     out = []
+    # (the long-running pipeline shards first, so that they start at once)
+    for j in range(8):
+        out.append({'name': f'pipe{j}', 'what': 'pipe', 'mod': 8, 'rem': j, **lim})
     J = 10
     for j in range(J):
         out.append({'name': f'dfs{j}', 'what': 'dfs', 'mod': J, 'rem': j, **lim})
@@ -50,8 +53,6 @@ def shards(tier, seed):
     for be in BACKENDS:
         out.append({'name': f'proc-{be}', 'what': 'proc', 'backend': be, **lim})
     out.append({'name': 'proc-serial', 'what': 'serial', **lim})
-    for j in range(4):
-        out.append({'name': f'pipe{j}', 'what': 'pipe', 'mod': 4, 'rem': j, **lim})
     for j in range(4):
         out.append({'name': f'schedpipe{j}', 'what': 'schedpipe', 'mod': 4, 'rem': j, **lim})
     return out
@@ -230,7 +231,7 @@ def run_pipe(spec, res):
                     cnt += 1
                     if cnt % (spec['mod'] * (1 if d == 1 else 3)) == spec['rem']:
                         yield {'src': src, 'ops': list(ops)}
-        for _ in range(spec['rnd_runs'] * 25):
+        for _ in range(spec['rnd_runs'] * 100 // spec['mod']):
             p = programs.random_program(rng, 5, sources=srcs)
             if not any(op[0] in excluded for op in p['ops']):
                 yield p
@@ -244,11 +245,14 @@ def run_pipe(spec, res):
         # object twice at the same time: the plain pipeline is then subject to
         # the known finding C12-reshuffle-shared-permutation and is no reference)
         heads = [[], [('map', 'f')], [('slice', 'slice', (None, None, -1))]]
+        k = 0
         for src in srcs[:2] + [('dict', 8, 'pickle')]:
             for h in heads:
                 for r in RND:
                     for t in tails:
-                        yield {'src': src, 'ops': h + [r] + t}
+                        k += 1
+                        if k % spec['mod'] == spec['rem']:
+                            yield {'src': src, 'ops': h + [r] + t}
     variants = [('prefetch(2,2,t)', lambda d: d.prefetch(2, 2, 't'), True),
                 ('prefetch(3,4,t)', lambda d: d.prefetch(3, 4, 't'), True),
                 ('prefetch(1,2)', lambda d: d.prefetch(1, 2), False),
